@@ -460,6 +460,33 @@ func (s *Store) nsExists(ns string) bool {
 }
 
 // Create implements POST.
+// validObjectName: DNS-1123 subdomain, at most 253 characters.
+func validObjectName(name string) bool {
+	if len(name) == 0 || len(name) > 253 {
+		return false
+	}
+	prev := byte('.')
+	for i := 0; i < len(name); i++ {
+		c := name[i]
+		alnum := (c >= 'a' && c <= 'z') || (c >= '0' && c <= '9')
+		switch {
+		case alnum:
+		case c == '-':
+			if prev == '.' {
+				return false
+			}
+		case c == '.':
+			if prev == '.' || prev == '-' {
+				return false
+			}
+		default:
+			return false
+		}
+		prev = c
+	}
+	return prev != '.' && prev != '-'
+}
+
 func (s *Store) Create(r *Resource, ns string, body Object, actor string) (Object, *StatusErr) {
 	o := deepCopy(body)
 	m := meta(o)
@@ -473,6 +500,11 @@ func (s *Store) Create(r *Resource, ns string, body Object, actor string) (Objec
 	}
 	if name == "" {
 		return nil, errInvalid(r, "", "metadata.name: Required value: name or generateName is required")
+	}
+	if !validObjectName(name) {
+		// every kind of the universe validates names as DNS-1123 subdomains (custom
+		// resources, ConfigMap, Secret, ControllerRevision); '/', '%' and upper case are refused
+		return nil, errInvalid(r, name, fmt.Sprintf("metadata.name: Invalid value: %q: a lowercase RFC 1123 subdomain must consist of lower case alphanumeric characters, '-' or '.', and must start and end with an alphanumeric character", name))
 	}
 	if r.Namespaced {
 		if bns, _ := m["namespace"].(string); bns != "" && ns != "" && bns != ns {
